@@ -9,7 +9,7 @@ for pid, c in sorted(src['claimed'].items()):
     checks.append(dict(property_id=pid, quick_cmd=f"./check {pid} --tier quick", thorough_cmd=f"./check {pid} --tier thorough",
                        evidence_file=f"evidence/{pid}.json", replay_cmd_template=f"./check {pid} --replay {{path}}",
                        engine="epyverif",
-                       level_claimed=dict(category="proof", text=c['text'], design_ref=c.get('design_ref', f"DESIGN.md §4 {pid}")),
+                       level_claimed=dict(category="proof", text=c['text'], design_ref=c.get('design_ref', f"DESIGN.md Part B.3 and §4 {pid}")),
                        level_note=c['note'], technique=c['technique']))
 na = [dict(property_id=p['id'], reason=src['not_applicable'].get(p['id'], src['default_na_reason'])) for p in props if p['id'] not in src['claimed']]
 m = dict(version=1, setup_cmd="cd lean && lake build",
